@@ -57,8 +57,10 @@ Proof.
   - intros j f idx b y H Hr Hh. slot_inv H; cbn in Hr; try discriminate Hr. injection Hr as Hr. subst y. reflexivity.
   - intros e x He Hx. vm_compute in He. destruct He as [He|[]]. subst e. unfold blockcmp, x_hashf. cbn [fe_hash fe_len fe_file hval_eqb].
     unfold is_junk, JBASE in Hx. apply andb_false_iff. left. apply N.eqb_neq. cbn. lia.
-  - intros l w e Hl He Hb. vm_compute in He. destruct He as [He|[]]. subst e.
-    destruct l as [|[|l]]; cbn in Hl; try discriminate Hl; [injection Hl as Hl; subst w; reflexivity | destruct l; discriminate Hl].
+  - intros l w i e Hl He Hb. vm_compute in He. destruct He as [He|[]]. subst e.
+    destruct l as [|[|l]]; cbn in Hl; try discriminate Hl; [|destruct l; discriminate Hl]. injection Hl as Hl. subst w.
+    (* only block 11 of the encoded vector passes the hash test of the entry of disk 0 *)
+    destruct i as [|[|i]]; [reflexivity | vm_compute in Hb; discriminate Hb | destruct i; vm_compute in Hb; discriminate Hb].
   - intros e b He Hs. vm_compute in He. destruct He as [He|[]]. subst e. vm_compute in Hs. discriminate Hs.
   - vm_compute. lia.
   - cbn. lia.
